@@ -669,6 +669,9 @@ func (g *Gen) evalCall(env *Env, x *SExpr) *Val {
 		if t == nil {
 			specErr(x, "unknown type %s", x.Args[1].Str)
 		}
+		if kindOf(t) == KPtr {
+			_ = g.mkifSym(t) // boxing axioms of the type
+		}
 		return boolVal(and(not(eq(a.S, "0")), eq("(iftype "+a.S+")", fmt.Sprintf("%d", g.P.tagOf("type|"+typeName(t))))))
 	case "ifptr":
 		a := g.eval(env, x.Args[0])
